@@ -152,3 +152,13 @@ pub fn izip3<'a, A, B, C>(a: &'a [A], b: &'a [B], c: &'a [C]) -> (r: impl Iterat
         r.remaining().len() == (if a.len() <= b.len() { if a.len() <= c.len() { a.len() } else { c.len() } } else { if b.len() <= c.len() { b.len() } else { c.len() } }),
         forall |k: int| 0 <= k < r.remaining().len() ==> *(#[trigger] r.remaining()[k]).0 == a[k] && *r.remaining()[k].1 == b[k] && *r.remaining()[k].2 == c[k],
 { a.iter().zip(b.iter()).zip(c.iter()).map(|((a, b), c)| (a, b, c)) }
+
+/// `it.filter(f)` for a predicate closure without mutable state; `pred` is the specification-level predicate it computes
+#[verifier::external_body]
+pub fn verif_filter<I: Iterator, F: FnMut(&I::Item) -> bool>(it: I, f: F, Ghost(pred): Ghost<spec_fn(I::Item) -> bool>) -> (r: ::core::iter::Filter<I, F>)
+    requires
+        it.obeys_prophetic_iter_laws(),
+        forall |k: int| 0 <= k < it.remaining().len() ==> #[trigger] f.requires((&it.remaining()[k],)),
+        forall |k: int, b: bool| 0 <= k < it.remaining().len() && #[trigger] f.ensures((&it.remaining()[k],), b) ==> b == pred(it.remaining()[k]),
+    ensures r.obeys_prophetic_iter_laws(), r.remaining() == it.remaining().filter(pred),
+{ it.filter(f) }
